@@ -377,6 +377,12 @@ func (e *Engine) computeModsets(root *ssa.Function) {
 		}
 		for _, b := range f.Blocks {
 			for _, in := range b.Instrs {
+				if _, isGo := in.(*ssa.Go); isGo {
+					// a goroutine started here runs concurrently: its effects are
+					// not part of the sequential effect of the call (the same
+					// reading as when the body is executed: "goroutine not modelled")
+					continue
+				}
 				e.directWrites(f, in, d)
 				for _, callee := range e.callees(in) {
 					edges[f] = append(edges[f], callee)
